@@ -33,7 +33,8 @@ SPEC = dict(
     level_note=("Trusted as C01. is_top-iff-greatest for SetUnion/MapUnion/VecUnion uses that the element/key type is unbounded in the "
                 "model (u32 in the harness); a set/map over a finite element/key type (e.g. SetUnion<HashSet<bool>>) has a greatest element for which is_top() is false - the crate's "
                 "is_top for collections is a constant false; not instantiated by the harness (same family as F11, not recorded separately)."),
-    trusted_base=["std containers modelled as lists; element and key types modelled as unbounded naturals"],
+    trusted_base=["std containers modelled as lists; element and key types modelled as unbounded naturals",
+                  "lean/HvLat/translate_tables.py: our translator from Rust match arms / IsTop-IsBot-Default impl bodies to the Lean functions of Gen/Tables.lean (unknown syntax = broken tie)"],
     assumptions=["set/map backings hold no duplicate keys", "MapUnion/WithBot value lattices have a non-bottom value (ok3)",
                  "element/key types are effectively unbounded"],
 )
